@@ -338,7 +338,7 @@ func insertionCase(g *gen.G, p *big.Int, d, b int, tree *ref.Tree, nIns int) (st
 func deletionCase(g *gen.G, p *big.Int, d, b int, tree *ref.Tree, nIns int) (string, string, string) {
 	size := new(big.Int).Lsh(big.NewInt(1), uint(d))
 	pre := tree.Root()
-	muts := []string{"none", "none", "none", "dup-old", "dup-zero", "empty", "allpad", "mixpad", "toolarge", "u32max", "stale", "corrupt", "wrongitem", "wrongpost"}
+	muts := []string{"none", "none", "none", "dup-old", "dup-zero", "empty", "allpad", "mixpad", "toolarge", "u32max", "stale", "corrupt", "wrongitem", "wrongpost", "pad-genuine", "pad-genuine"}
 	mut := muts[g.Intn(len(muts))]
 	idxs := make([]*big.Int, b)
 	ids := make([]*big.Int, b)
@@ -375,6 +375,14 @@ func deletionCase(g *gen.G, p *big.Int, d, b int, tree *ref.Tree, nIns int) (str
 			idxs[i] = new(big.Int).Add(size, g.Below(size))
 			ids[i] = g.Field(p)
 			proofs[i] = garbage()
+			continue
+		}
+		if mut == "pad-genuine" && g.Chance(2, 3) {
+			// a padding index whose other fields are a genuine membership witness of leaf index-2^d:
+			// still a no-op
+			idxs[i] = new(big.Int).Add(size, new(big.Int).SetUint64(leaf))
+			ids[i] = new(big.Int).Set(work.Get(leaf))
+			proofs[i] = work.Path(leaf)
 			continue
 		}
 		idxs[i] = new(big.Int).SetUint64(leaf)
